@@ -3,10 +3,12 @@ CONSTANTS
   NStyles = 3
   TwoSlots = FALSE
   YModes = {}
-  TailMode = "none"
+  Kinds = {}
+  Plans = {}
+  CloneReads = {}
   Depth = 0
   OpNames = {"AddStyle", "RemoveStyle", "Edit", "Resolve", "CloneSwap"}
-INVARIANTS Inv_Terminates Inv_Nearest Inv_StepLaw Inv_Owner Inv_Found Inv_ReadOnly
+INVARIANTS Inv_Terminates Inv_Nearest Inv_StepLaw Inv_Owner Inv_Found Inv_Undef Inv_ReadOnly
 PROPERTIES Act_Frame Act_OwnWins Act_ReadOnly
 VIEW MCView
 CHECK_DEADLOCK FALSE
